@@ -951,13 +951,27 @@ func emitAccept(cw *caseWriter, ti []colDesc, line []byte, nontrivial bool) {
 	tmpl := buildTemplate(ti)
 	var row jsonline.Row
 	var err error
+	// the line is followed by `{}` on the same importer: whatever happened to the line, the row of the
+	// next one is what `{}` gives alone (a rejected line leaves no partially filled row behind)
+	next := 1
 	pan := guard(func() {
-		imp := tmpl.GetImporter(bytes.NewReader(append(append([]byte{}, line...), '\n')))
+		imp := tmpl.GetImporter(bytes.NewReader(append(append([]byte{}, line...), []byte("\n{}\n")...)))
 		if imp.Import() {
 			row, err = imp.GetRow()
 		} else {
 			// an empty line is not delivered as a token only if the input is empty; ScanLines delivers "" for "\n"
 			err = fmt.Errorf("no line scanned")
+		}
+		if bytes.IndexByte(line, '\n') >= 0 {
+			return // the text is not one line: the follow-up check does not apply
+		}
+		if imp.Import() {
+			r2, e2 := imp.GetRow()
+			if e2 != nil || r2 == nil || r2.DebugString() != tmpl.CreateRowEmpty().DebugString() {
+				next = 0
+			}
+		} else {
+			next = 0
 		}
 	})
 	// the two other entry points must agree on accept/reject
@@ -992,7 +1006,7 @@ func emitAccept(cw *caseWriter, ti []colDesc, line []byte, nontrivial bool) {
 	extForJSON(line, ext)
 	cw.count("accept:" + strings.SplitN(impl, " ", 2)[0] + fmt.Sprintf(":valid%d", gv))
 	cw.emit("accept "+descStr(ti)+" "+string(line), nontrivial, "accept", "C16", descStr(ti), hxs(string(line)), extStr(ext),
-		fmt.Sprintf("%s rownil=%d agree=%d", impl, rownil, ag), fmt.Sprintf("govalid=%d", gv))
+		fmt.Sprintf("%s rownil=%d agree=%d next=%d", impl, rownil, ag, next), fmt.Sprintf("govalid=%d", gv))
 }
 
 func genC16(cw *caseWriter, seed uint64, tier string) {
@@ -1039,6 +1053,22 @@ func genC16(cw *caseWriter, seed uint64, tier string) {
 		emitAccept(cw, nil, m, true)
 		if r.chance(1, 10) {
 			emitAccept(cw, nil, append(append([]byte{}, base...), []byte(pick(r, []string{" x", "{}", ",", "]", "}", " 1", "\t\t", " null"}))...), true)
+		}
+	}
+	// objects whose closing brace falls on and around the sizes a decoder or reader buffers by (512, 1024,
+	// 4096 …), alone, followed by trailing content, and followed by white space then trailing content
+	for _, size := range []int{500, 511, 512, 513, 1023, 1024, 1025, 1536, 1541, 2048, 3589, 4095, 4096, 4097, 8192, 65536} {
+		for d := -2; d <= 2; d++ {
+			n := size + d
+			obj := `{"k":"` + strings.Repeat("x", n-8) + `"}` // exactly n bytes
+			emitAccept(cw, nil, []byte(obj), true)
+			for _, tail := range []string{"x", "{}", " 1", "}", ",", `"`} {
+				emitAccept(cw, nil, []byte(obj+tail), true)
+			}
+			pad := `{"a":1}` + strings.Repeat(" ", n-7)
+			emitAccept(cw, nil, []byte(pad), true)
+			emitAccept(cw, nil, []byte(pad+"x"), true)
+			emitAccept(cw, typed, []byte(pad+`{"a":2}`), true)
 		}
 	}
 	if tier != "thorough" {
